@@ -569,6 +569,26 @@ fn tasks_for(prop: &str, tier: &str, seed: u64) -> Vec<Task> {
                     });
                 }
             }
+            // lengths beyond the symbolic bound, concretely (create, verify, explicit folding, negatives): n = 256, 512
+            for (kk, gp) in [(8usize, "sym"), (9usize, "r1cs")] {
+                let case = scen_c10::IppCase { name: format!("honest_k{}_native_only", kk), k: kk, g_factors: gp.into(), h_factors: "sym".into(), a_pat: "s".into(), b_pat: "s".into(), mode: "honest".into() };
+                for c in if thorough { vec!["secq256k1", "zorro", "curve25519"] } else { vec![["secq256k1", "zorro", "curve25519"][(seed as usize + kk) % 3]] } {
+                    let (case, c) = (case.clone(), c.to_string());
+                    let replay = serde_json::json!({"kind": "c10", "case": case, "seed": seed});
+                    out.push(Task {
+                        name: format!("C10:native_large_{}:{}", case.name, c),
+                        replay: replay.clone(),
+                        run: Box::new(move || {
+                            let checks = match c.as_str() {
+                                "secq256k1" => replay::c10_native::<Secq>(&case, seed, HashMap::new(), None),
+                                "zorro" => replay::c10_native::<Zorro>(&case, seed, HashMap::new(), None),
+                                _ => replay::c10_native::<Ed>(&case, seed, HashMap::new(), Some(ed_torsion())),
+                            };
+                            native_job("C10", &format!("native_large_{}", case.name), &c, seed, checks, replay)
+                        }),
+                    });
+                }
+            }
             for (k, case) in scen_c10::c10_cases(thorough).into_iter().enumerate() {
                 let cs: Vec<&str> = if thorough { curves.clone() } else { vec![["secq256k1", "zorro", "curve25519"][k % 3]] };
                 for c in cs {
